@@ -38,6 +38,8 @@ func VerifLemma_C18C_ModifyImage() {
 		SourceCodeInfo: &descriptorpb.SourceCodeInfo{Location: []*descriptorpb.SourceCodeInfo_Location{vLoc(8), vLoc(8, 1)}},
 	}}
 	wktLocs := wkt.fdp.SourceCodeInfo.Location
+	// a well-known type may be an import or vendored into the module (a non-import file): skipped either way
+	wkt.isImport = verifNondetBool()
 
 	i64 := descriptorpb.FieldDescriptorProto_TYPE_INT64
 	str := descriptorpb.FieldDescriptorProto_TYPE_STRING
@@ -158,3 +160,81 @@ func VerifLemma_C18C_ModifyImage() {
 }
 
 func vI32Ptr(v int32) *int32 { return &v }
+
+var vWKTPaths = []string{
+	"google/protobuf/any.proto", "google/protobuf/timestamp.proto", "google/protobuf/descriptor.proto",
+	"google/protobuf/compiler/plugin.proto", "google/protobuf/wrappers.proto",
+}
+
+// VerifLemma_C18C_WKTUntouched: a file at a well-known-type path is never modified by Modify - whether it is an
+// import or a (vendored) non-import file, whatever module it belongs to, with or without options / source info, under
+// a config that would rewrite every governed option of an ordinary file (checked on a second, ordinary file).
+func VerifLemma_C18C_WKTUntouched() {
+	path := vWKTPaths[verifNondetChoice(len(vWKTPaths))]
+	i64 := descriptorpb.FieldDescriptorProto_TYPE_INT64
+	fld := &descriptorpb.FieldDescriptorProto{Name: vStrPtr("v"), Number: vI32Ptr(1), Type: &i64}
+	msg := &descriptorpb.DescriptorProto{Name: vStrPtr("W"), Field: []*descriptorpb.FieldDescriptorProto{fld}}
+	wkt := &vImageFile{fdp: &descriptorpb.FileDescriptorProto{Name: &path, Package: vStrPtr("google.protobuf"),
+		MessageType: []*descriptorpb.DescriptorProto{msg}}, isImport: verifNondetBool()}
+	switch verifNondetChoice(3) {
+	case 1:
+		wkt.fullName = vMustFullName(vModulePool[0])
+	case 2:
+		wkt.fullName = vMustFullName(vModulePool[1])
+	}
+	var wktOpts *descriptorpb.FileOptions
+	if verifNondetBool() {
+		wktOpts = &descriptorpb.FileOptions{GoPackage: vStrPtr("google.golang.org/protobuf/types/known/anypb"), JavaPackage: vStrPtr("com.google.protobuf")}
+		wkt.fdp.Options = wktOpts
+	}
+	var wktLocs []*descriptorpb.SourceCodeInfo_Location
+	if verifNondetBool() {
+		wktLocs = []*descriptorpb.SourceCodeInfo_Location{vLoc(8), vLoc(8, 11), vLoc(8), vLoc(8, 1), vLoc(4, 0, 2, 0)}
+		wkt.fdp.SourceCodeInfo = &descriptorpb.SourceCodeInfo{Location: wktLocs}
+	}
+	ordOpts := &descriptorpb.FileOptions{GoPackage: vStrPtr("keep/go")}
+	ord := &vImageFile{fdp: &descriptorpb.FileDescriptorProto{Name: vStrPtr("a/b.proto"), Package: vStrPtr("pk.v1"), Options: ordOpts,
+		SourceCodeInfo: &descriptorpb.SourceCodeInfo{Location: []*descriptorpb.SourceCodeInfo_Location{vLoc(8), vLoc(8, 11)}}},
+		fullName: vMustFullName(vModulePool[0])}
+	var overrides []bufconfig.ManagedOverrideRule
+	for _, o := range []struct {
+		opt bufconfig.FileOption
+		val any
+	}{{bufconfig.FileOptionGoPackagePrefix, "g"}, {bufconfig.FileOptionJavaPackagePrefix, "org"}, {bufconfig.FileOptionCcEnableArenas, false},
+		{bufconfig.FileOptionOptimizeFor, "CODE_SIZE"}, {bufconfig.FileOptionCsharpNamespacePrefix, "Cs"}} {
+		r, err := bufconfig.NewManagedOverrideRuleForFileOption("", "", o.opt, o.val)
+		verifAssume(err == nil)
+		overrides = append(overrides, r)
+	}
+	js, err := bufconfig.NewManagedOverrideRuleForFieldOption("", "", "", bufconfig.FieldOptionJSType, "JS_STRING")
+	verifAssume(err == nil)
+	overrides = append(overrides, js)
+	config := bufconfig.NewGenerateManagedConfig(true, nil, overrides)
+	files := []bufimage.ImageFile{wkt, ord}
+	if verifNondetBool() {
+		files = []bufimage.ImageFile{ord, wkt}
+	}
+	snap := vTakeSnap(wkt.fdp)
+	err = Modify(&vImage{files: files}, config)
+	verifCover("modified")
+	verifAssert(err == nil, "Modify succeeds")
+	// the ordinary file IS rewritten (the config is effective) ...
+	verifAssert(ordOpts.GoPackage != nil && *ordOpts.GoPackage == "g/a;pkv1" && ordOpts.JavaPackage != nil && ordOpts.OptimizeFor != nil &&
+		len(ord.fdp.SourceCodeInfo.Location) == 0, "the ordinary file is rewritten and swept")
+	// ... the well-known-type file is not
+	verifAssert(wkt.fdp.Options == wktOpts && vFrameOK(snap, wkt.fdp), "well-known-type file: descriptor fields and Options pointer untouched")
+	if wktOpts != nil {
+		verifAssert(*wktOpts.GoPackage == "google.golang.org/protobuf/types/known/anypb" && *wktOpts.JavaPackage == "com.google.protobuf" &&
+			wktOpts.OptimizeFor == nil && wktOpts.CcEnableArenas == nil && wktOpts.CsharpNamespace == nil && wktOpts.JavaMultipleFiles == nil &&
+			wktOpts.ObjcClassPrefix == nil && wktOpts.RubyPackage == nil && wktOpts.PhpNamespace == nil && wktOpts.JavaOuterClassname == nil,
+			"well-known-type file: no file option written")
+	}
+	verifAssert(fld.Options == nil, "well-known-type file: no jstype written")
+	if wktLocs != nil {
+		sci := wkt.fdp.SourceCodeInfo
+		verifAssert(len(sci.Location) == len(wktLocs), "well-known-type file: source info not swept")
+		for i := range wktLocs {
+			verifAssert(sci.Location[i] == wktLocs[i], "well-known-type file: locations untouched")
+		}
+	}
+}
